@@ -49,8 +49,9 @@ package prunner
 
 // ---------------------------------------------------------------------------------------
 //@ func (*PipelineJob).isRunning
-//@   lockmode R
+//@   lockmode any
 //@   requires [nonnil] j != nil
+//@   requires [guard] $held >= 1 || !$pub[j]
 //@   ensures  [def] res == jobRunning(j)
 //@   modifies nothing
 
@@ -348,16 +349,91 @@ package prunner
 //@ func (*PipelineRunner).SaveToStore
 //@   lockmode none
 //@   ensures  [T] Tjobs() && jobsUntouched()
-//@   ensures  [defs] r.defs == old(r.defs)
+//@   ensures  [defs] r.defs == old(r.defs) && r.isShuttingDown == old(r.isShuttingDown)
 //@   ensures  [C12.keepLive] liveKept(r)
 //@   ensures  [C12.waitLists] sameExcept("map(map[string][]*PipelineJob)", r.jobsByPipeline)
+//@   modifies map(map[uuid.UUID]*PipelineJob)@[r.jobsByID], map(map[string][]*PipelineJob)@[r.jobsByPipeline], mem(*PipelineJob), $clock, $logsRemoved, $savedData
 //@   loop 1 invariant [ri] RI(r) && r.defs == old(r.defs) && r.jobsByPipeline == old(r.jobsByPipeline) && r.jobsByID == old(r.jobsByID) && jobsUntouched() && liveKept(r) && sameExcept("map(map[string][]*PipelineJob)", r.jobsByPipeline)
 //@   loop 2 invariant [ri] RI(r) && r.defs == old(r.defs) && r.jobsByPipeline == old(r.jobsByPipeline) && r.jobsByID == old(r.jobsByID) && jobsUntouched() && liveKept(r) && sameExcept("map(map[string][]*PipelineJob)", r.jobsByPipeline)
 //@   loop 1 invariant [bases] forall p string :: base(r.jobsByPipeline[p]) == old(base(r.jobsByPipeline[p])) && off(r.jobsByPipeline[p]) == old(off(r.jobsByPipeline[p]))
 //@   loop 2 invariant [bases] forall p string :: base(r.jobsByPipeline[p]) == old(base(r.jobsByPipeline[p])) && off(r.jobsByPipeline[p]) == old(off(r.jobsByPipeline[p]))
 //@   loop 2 invariant [sorted] all(sortedJobsInPipeline, nonNil) && all(sortedJobsInPipeline, registered, r) && fresh(base(sortedJobsInPipeline)) && 0 <= $i + 1 && $i + 1 <= len(sortedJobsInPipeline)
-//@   loop 3 invariant [ri] RI(r) && r.defs == old(r.defs) && jobsUntouched() && liveKept(r) && sameExcept("map(map[string][]*PipelineJob)", old(r.jobsByPipeline)) && $held == 2
-//@   loop 4 invariant [ri] RI(r) && r.defs == old(r.defs) && jobsUntouched() && liveKept(r) && sameExcept("map(map[string][]*PipelineJob)", old(r.jobsByPipeline)) && $held == 2 && 0 <= $i + 1 && $i + 1 <= len(tasks) && fresh(base(tasks))
+//@   loop 3 invariant [ri] RI(r) && r.defs == old(r.defs) && jobsUntouched() && liveKept(r) && sameExcept("map(map[string][]*PipelineJob)", old(r.jobsByPipeline)) && $held == 2 && fresh(data) && fresh(base(data.Jobs)) && wf(data.Jobs)
+//@   loop 4 invariant [ri] RI(r) && r.defs == old(r.defs) && jobsUntouched() && liveKept(r) && sameExcept("map(map[string][]*PipelineJob)", old(r.jobsByPipeline)) && $held == 2 && fresh(data) && fresh(base(data.Jobs)) && wf(data.Jobs) && 0 <= $i + 1 && $i + 1 <= len(tasks) && fresh(base(tasks))
+
+//@ func (*pipelineJobsSorter).Len
+//@   lockmode R
+//@   modifies nothing
+//@ func (*pipelineJobsSorter).Less
+//@   lockmode R
+//@   modifies nothing
+//@ func (*pipelineJobsSorter).Swap
+//@   lockmode W
+//@   modifies mem(*PipelineJob)
+//@ func byCreationTimeDesc
+//@   lockmode any
+//@   requires [nonnil] p1 != nil && p2 != nil
+//@   ensures  [desc] res <==> p2.Created < p1.Created
+//@   modifies nothing
+
+//@ pure canceledEntry(j *PipelineJob) bool = j.Canceled
+//@ func (*PipelineRunner).Shutdown
+//@   lockmode none
+//@   ensures  [T] Tjobs()
+//@   ensures  [C11.gate] r.isShuttingDown
+//@   ensures  [defs] r.defs == old(r.defs)
+//@   loop 1 invariant [ri] RI(r) && r.isShuttingDown && Tjobs() && r.defs == old(r.defs) && $held == 2
+//@   loop 1 invariant [purged] forall p string :: $seen[p] ==> !(p in r.waitListByPipeline)
+//@   loop 2 invariant [ri] RIbase(r) && RIids(r) && RIwf(r) && RIjobs(r) && RIsep(r) && RIreg(r) && r.isShuttingDown && Tjobs() && r.defs == old(r.defs) && $held == 2
+//@   loop 2 invariant [others] forall p string :: p != pipelineName ==> all(r.waitListByPipeline[p], wlEntry, p) && distinctElems(r.waitListByPipeline[p])
+//@   loop 2 invariant [mine] jobs == r.waitListByPipeline[pipelineName] && 0 <= $i + 1 && $i + 1 <= len(jobs) && distinctElems(jobs) && all(jobs, wlEntryC, pipelineName) && all(jobs[:$i+1], canceledEntry)
+//@   loop 2 invariant [purged] forall p string :: $seen1[p] && p != pipelineName ==> !(p in r.waitListByPipeline)
+//@   loop 3 invariant [ri] r.isShuttingDown && Tjobs() && r.defs == old(r.defs) && $held == 0
+//@   loop 4 invariant [ri] RI(r) && r.isShuttingDown && Tjobs() && r.defs == old(r.defs) && $held == 1
+//@   loop 5 invariant [ri] RI(r) && r.isShuttingDown && Tjobs() && r.defs == old(r.defs) && $held == 2
+//@ pure wlEntryC(j *PipelineJob, p string) bool = j != nil && allocated(j) && j.Pipeline == p && j.Start == nil && !j.Completed
+
+//@ func (*PipelineRunner).Shutdown$1
+//@   lockmode none
+//@   ensures  [T] Tjobs()
+//@   ensures  [gate] r.isShuttingDown == old(r.isShuttingDown) && r.defs == old(r.defs)
+//@   modifies map(map[uuid.UUID]*PipelineJob), map(map[string][]*PipelineJob), mem(*PipelineJob), $clock, $logsRemoved, $savedData, $wgWaited
+//@   at call (*PipelineRunner).SaveToStore#1: assert [C11.finalSave] $wgWaited
+
+//@ func buildJobFromPersistedJob
+//@   lockmode any
+//@   ensures  [fresh] res != nil && fresh(res) && !$pub[res] && fresh(base(res.Tasks))
+//@   ensures  [C10.buildView] res.ID == pJob.ID && res.Pipeline == pJob.Pipeline && res.Completed == pJob.Completed && res.Canceled == pJob.Canceled && res.Created == pJob.Created && res.Start == pJob.Start && res.End == pJob.End && res.Variables == pJob.Variables && res.User == pJob.User && len(res.Tasks) == len(pJob.Tasks) && res.sched == nil && res.startTimer == nil
+//@   ensures  [C10.lastError] (pJob.LastError == nil ==> res.LastError == nil) && (pJob.LastError != nil && *pJob.LastError != "" ==> res.LastError != nil)
+//@   modifies nothing
+//@   loop 1 invariant [bounds] 0 <= $i + 1 && $i + 1 <= len(pJob.Tasks) && fresh(base(tasks)) && len(tasks) == len(pJob.Tasks) && off(tasks) == 0 && !$pub[job] && fresh(job)
+//@   loop 1 invariant [frame] same("jobTask.*")
+
+//@ pure emptyRunner(r *PipelineRunner) bool = r != nil && r.jobsByID != nil && r.jobsByPipeline != nil && r.waitListByPipeline != nil && r.jobsByPipeline != r.waitListByPipeline && !$pub[r] && !$pub[r.jobsByID] && !$pub[r.jobsByPipeline] && !$pub[r.waitListByPipeline] && (forall p string :: !(p in r.jobsByPipeline) && !(p in r.waitListByPipeline)) && (forall id uuid.UUID :: !(id in r.jobsByID))
+//@ pure terminalJob(j *PipelineJob) bool = j != nil && jobTerminal(j) && !jobRunning(j) && !jobWaiting(j)
+//@ pure freshOrNil(s []*PipelineJob) bool = base(s) == 0 || fresh(base(s))
+
+//@ func (*PipelineRunner).initialLoadFromStore
+//@   lockmode any
+//@   requires [empty] emptyRunner(r) && r.store != nil
+//@   ensures  [C10.terminal] res == nil ==> forall p string :: all(r.jobsByPipeline[p], terminalJob)
+//@   ensures  [C10.noWaitLists] forall p string :: !(p in r.waitListByPipeline)
+//@   ensures  [C10.ids] res == nil ==> forall id uuid.UUID :: (id in r.jobsByID) ==> terminalJob(r.jobsByID[id])
+//@   ensures  [unpublished] !$pub[r] && !$pub[r.jobsByID] && !$pub[r.jobsByPipeline]
+//@   loop 1 invariant [maps] r.jobsByID == old(r.jobsByID) && r.jobsByPipeline == old(r.jobsByPipeline) && r.waitListByPipeline == old(r.waitListByPipeline) && !$pub[r] && !$pub[r.jobsByID] && !$pub[r.jobsByPipeline] && r.jobsByPipeline != nil && r.jobsByID != nil && r.jobsByPipeline != r.waitListByPipeline
+//@   loop 1 invariant [lists] (forall p string :: freshOrNil(r.jobsByPipeline[p]) && wf(r.jobsByPipeline[p]) && all(r.jobsByPipeline[p], terminalJob)) && (forall p string :: !(p in r.waitListByPipeline)) && (forall id uuid.UUID :: (id in r.jobsByID) ==> terminalJob(r.jobsByID[id]))
+//@   loop 1 invariant [sep] forall p string, q string :: p != q && base(r.jobsByPipeline[p]) != 0 ==> base(r.jobsByPipeline[p]) != base(r.jobsByPipeline[q])
+//@   loop 1 invariant [idx] 0 <= $i + 1
+//@   loop 2 invariant [job] job != nil && fresh(job) && !$pub[job] && fresh(base(job.Tasks)) && 0 <= $i + 1 && $i + 1 <= len(job.Tasks) && job.Start != nil && !job.Completed && !job.Canceled
+//@   loop 2 invariant [maps] r.jobsByID == old(r.jobsByID) && r.jobsByPipeline == old(r.jobsByPipeline) && r.waitListByPipeline == old(r.waitListByPipeline) && !$pub[r] && !$pub[r.jobsByID] && !$pub[r.jobsByPipeline] && r.jobsByPipeline != nil && r.jobsByID != nil && r.jobsByPipeline != r.waitListByPipeline
+//@   loop 2 invariant [lists] (forall p string :: freshOrNil(r.jobsByPipeline[p]) && wf(r.jobsByPipeline[p]) && all(r.jobsByPipeline[p], terminalJob)) && (forall p string :: !(p in r.waitListByPipeline)) && (forall id uuid.UUID :: (id in r.jobsByID) ==> terminalJob(r.jobsByID[id]))
+//@   loop 2 invariant [sep] forall p string, q string :: p != q && base(r.jobsByPipeline[p]) != 0 ==> base(r.jobsByPipeline[p]) != base(r.jobsByPipeline[q])
+
+//@ func NewPipelineRunner
+//@   lockmode any
+//@ func NewPipelineRunner$1
+//@   lockmode none
+//@   loop 1 invariant [held] $held == 0
 
 // ---------------------------------------------------------------------------------------
 // Mapping of obligations to the fixed property ids (glob patterns on obligation names)
